@@ -8,6 +8,8 @@
 
 // ---- oracle: the stage partition of property C02, written from the statement
 pub open spec fn st_created(s: TaskState) -> bool { s is Ready || s is Pending || s is Interrupt }
+// a sibling branch that actually ran to an end (is_error || is_success || is_abort in Task::is_ready)
+pub open spec fn st_ran(s: TaskState) -> bool { s is Error || s is Completed || s is Aborted }
 pub open spec fn st_terminal(s: TaskState) -> bool {
     s is Completed || s is Submitted || s is Skipped || s is Backed || s is Cancelled || s is Aborted || s is Removed || s is Error
 }
